@@ -1,0 +1,5 @@
+//go:build !verif
+
+package wsp
+
+func verifPoint(name string, obj interface{}) {}
